@@ -19,7 +19,7 @@ from .. import arith
 
 CRATES = ['trust_runtime', 'trust_hir']
 NODEFAULT_OK = True
-NODEFAULT_SKIP = ['C01.R5', 'C01.R7']      # the checker-side table lives in trust_hir, which the second configuration does not load
+NODEFAULT_SKIP = ['C01.R5', 'C01.R7', 'C01.R9']      # the checker-side table lives in trust_hir, which the second configuration does not load
 EXPLANATION = __doc__
 
 RT = 'trust_runtime::'
@@ -102,6 +102,7 @@ def run(ctx):
     rules_r6(ctx)
     rules_r7(ctx)
     rules_r8(ctx)
+    rules_r9(ctx)
 
 
 def run_thorough(ctx):
@@ -672,3 +673,97 @@ def rules_r8(ctx):
             r8.ok('depth-gate|%s' % name, loc=fn.loc(sinks[0]))
         else:
             r8.bad('depth-gate|%s' % name, '%s pushes a frame / executes the callee body without first testing the call depth against a bound: a program that recurses (the checker accepts a FUNCTION calling itself) overflows the native stack and aborts the process instead of faulting' % name, loc=fn.loc(sinks[0]) if sinks else fn.loc(0))
+
+
+# =====================================================================================
+def rules_r9(ctx):
+    """Constructs the checker accepts must be executable (further rows of the R5 family):
+    identifiers are case-insensitive for the checker, so the interpreter must resolve them case-insensitively (or the
+    lowering must canonicalise the spelling); MOD on REAL is rejected by the interpreter, so the checker must reject it;
+    RETURN is allowed in every POU body, so every body runner must accept it."""
+    fx = ctx.fx
+    r9 = ctx.rule('C01.R9', 'accepted constructs are executable: identifier case, MOD on REAL, RETURN in every POU body', floor=4)
+    # (a) identifier case
+    r9.saw()
+    canon = re.compile(r'to_ascii_uppercase$|to_ascii_lowercase$|to_uppercase$|to_lowercase$|normalize_name$|canonical')
+    low = [k for k in fx.fns if k.startswith(RT + 'harness::lower::expr::')]
+    lowered_canon = False
+    for k in low:
+        fn = F(fx.fns[k])
+        for b in fn.g:
+            for st in fn.bbs[b]['s']:
+                if st[0] == 'A' and st[2][0] == 'agg' and re.search(r'eval::expr::ast::Expr::Name$', str(st[2][1])) and st[2][2]:
+                    from ..dep import deps as _deps
+                    d = _deps(fn, st[2][2][0])
+                    if any(canon.search(c[1]) for c in d.calls):
+                        lowered_canon = True
+    storage_ci = False
+    for name in ('get_local', 'get_global', 'get_instance_var'):
+        rec = fx.fns.get(RT + 'memory::VariableStorage::' + name)
+        if rec is None:
+            continue
+        reach = ctx.cg.reach([rec['id']])
+        if any(n.endswith('eq_ignore_ascii_case') or canon.search(n) for n in reach):
+            storage_ci = True
+    if lowered_canon or storage_ci:
+        r9.ok('identifier-case', detail='lowering canonicalises' if lowered_canon else 'storage compares case-insensitively')
+    else:
+        r9.bad('identifier-case', 'the checker resolves identifiers case-insensitively (IEC 61131-3), but the lowering keeps the spelling of each reference (Expr::Name(node_text)) and the interpreter looks variables, fields and named arguments up by exact key: a program that spells a reference differently from the declaration is accepted and faults with UndefinedVariable',
+               loc='%s:%d' % (fx.fns[low[0]]['file'], fx.fns[low[0]]['line']) if low else None)
+    # (b) MOD on REAL
+    r9.saw()
+    na = fx.fns.get(RT + 'eval::ops::numeric_arith')
+    rt_rejects = False
+    if na is not None:
+        fn = F(na)
+        for b, nm, t in fn.calls(lambda n: False):
+            pass
+        # the real arm returns TypeMismatch under matches!(op, Mod): a switch on discr(op) with the Mod index leading to an Err(TypeMismatch)
+        adt = fx.adts.get('trust_runtime::eval::ops::BinaryOp')
+        mod_idx = [i for i, v in enumerate(adt['variants']) if v['name'] == 'Mod'][0] if adt else None
+        for b in fn.g:
+            t = fn.term(b)
+            if t['k'] == 'switch' and mod_idx is not None:
+                ex = {int(v): tb for v, tb in t['v']}
+                if list(ex) == [mod_idx]:
+                    rt_rejects = True
+    ck = [k for k in fx.fns if k.startswith('trust_hir::type_check::expr::') and 'infer_binary' in k]
+    ck_rejects = False
+    from ..util import promoted_variant
+    for k in ck:
+        rec = fx.fns[k]
+        fn = F(rec)
+        for b, nm, t in fn.calls(lambda n: re.search(r'type_check::ops::BinaryOp as core::cmp::PartialEq>::eq$', n) is not None):
+            var = promoted_variant(rec, fn, t['a'][1]) or promoted_variant(rec, fn, t['a'][0])
+            if var != 'Mod':
+                continue
+            pos, neg, _ = call_result_edges(fn, b)
+            errs = fn.blocks_calling(lambda n: n.endswith('DiagnosticBuilder::error') or n.endswith('::error'))
+            fl = fn.blocks_calling(lambda n: n.endswith('Type::is_float'))
+            if pos and fl and any(guarded(fn, e, pos) for e in errs):
+                ck_rejects = True
+    if not rt_rejects:
+        r9.ok('mod-on-real', detail='the interpreter has no MOD-on-REAL rejection')
+    elif ck_rejects:
+        r9.ok('mod-on-real', detail='rejected by both')
+    else:
+        r9.bad('mod-on-real', 'numeric_arith rejects MOD on REAL operands with TypeMismatch, but the checker types it as ordinary arithmetic: `c := a MOD b` with REALs is accepted and faults every cycle', loc='%s:%d' % (fx.fns[ck[0]]['file'], fx.fns[ck[0]]['line']) if ck else None)
+    # (c) RETURN accepted by every body runner
+    for fid, what in ((RT + 'runtime::cycle::<impl trust_runtime::runtime::core::Runtime>::execute_program', 'execute_program'),
+                      (RT + 'eval::call_function_block', 'call_function_block')):
+        r9.saw()
+        okr = None
+        for m in fx.matches_in(fid):
+            if not m['sty'].endswith('eval::stmt::StmtResult'):
+                continue
+            for arm in m['arms']:
+                if any('StmtResult::Return' in p for p in arm['pats']):
+                    okr = not any(r.endswith('RuntimeError::InvalidControlFlow') for r in arm['refs'])
+                elif any(p == 'wild' for p in arm['pats']) and okr is None:
+                    okr = not any(r.endswith('RuntimeError::InvalidControlFlow') for r in arm['refs'])
+        if okr:
+            r9.ok('return-accepted|%s' % what)
+        elif okr is None:
+            r9.bad('return-accepted|%s' % what, '%s no longer matches on the body result (shape not recognised)' % what)
+        else:
+            r9.bad('return-accepted|%s' % what, '%s maps StmtResult::Return of the body to InvalidControlFlow: RETURN, which the checker allows in every POU body, faults the cycle' % what)
